@@ -78,7 +78,7 @@ PAIRS_MORE = [
 ]
 
 def run(ctx):
-    ok = ctx.lean(['AmcVerif.Props.C13', 'AmcVerif.Props.C13b', 'AmcVerif.Props.C13c', 'AmcVerif.Props.C13d'])
+    ok = ctx.lean(['AmcVerif.Props.C13', 'AmcVerif.Props.C13b', 'AmcVerif.Props.C13c', 'AmcVerif.Props.C13d', 'AmcVerif.Props.C13e'], extra_modules=['AmcVerif.Bridge.VecGlueBridge'])
     pairs = PAIRS_QUICK + (PAIRS_MORE if ctx.tier == 'thorough' or not ok else [])
     total = 0
     # build every pair's harness in one parallel batch (the per-pair runs below then hit the cache)
